@@ -71,6 +71,15 @@ type hBlock struct {
 
 type hInput struct {
 	Blocks []hBlock `json:"blocks"`
+	// BaseAt: the genesis file additionally holds a plain SDK BaseAccount (not an EthAccount) at the CREATE
+	// address of deployer B at nonce K.  Replay only (probe of an account type that does not implement
+	// EthAccountI); the generator never sets it.
+	BaseAt []hBaseAt `json:"base_at,omitempty"`
+}
+
+type hBaseAt struct {
+	B int    `json:"b"`
+	K uint64 `json:"k,omitempty"`
 }
 
 // hist is the run-time side of a history: what the ops created so far.
@@ -80,6 +89,8 @@ type hist struct {
 	slots     map[common.Address]map[uint64]bool
 	vest      []sdk.AccAddress
 	vestKey   []int
+	small     []common.Address // small contracts (op "deployc")
+	planned   []common.Address // future CREATE addresses that were prepared (vesting account / funded ahead)
 	liquid    []string
 	coins     []string // registered cosmos coins (erc20 pairs by RegisterCoin)
 	log       []string // per op: "op:ok" / "op:err"
@@ -137,6 +148,9 @@ func (h *hist) apply(op hOp) error {
 	ctx := c.Ctx()
 	a := ((op.A % chainNAccts) + chainNAccts) % chainNAccts
 	b := ((op.B % chainNAccts) + chainNAccts) % chainNAccts
+	if err, ok := h.applyEvm(op, a, b); ok {
+		return err
+	}
 	switch op.Op {
 	case "deploy":
 		ca := chainAcct(a)
@@ -158,7 +172,7 @@ func (h *hist) apply(op hOp) error {
 		if len(h.contracts) == 0 {
 			return fmt.Errorf("no contract")
 		}
-		to := h.contracts[op.B%len(h.contracts)]
+		to := h.contracts[((op.B%len(h.contracts))+len(h.contracts))%len(h.contracts)] // B = -1: the most recent one
 		data := []byte{}
 		n := 1 + op.Kind%3
 		for i := 0; i < n; i++ {
@@ -606,6 +620,8 @@ func hexAddrs(h *hist) []common.Address {
 		out = append(out, chainAcct(i).Eth)
 	}
 	out = append(out, h.contracts...)
+	out = append(out, h.small...)
+	out = append(out, h.planned...)
 	for _, v := range h.vest {
 		out = append(out, common.BytesToAddress(v))
 	}
@@ -762,7 +778,7 @@ type genObs struct {
 }
 
 func genesisRunCase(id string, in hInput) []Case {
-	c := newChain(dbm.NewMemDB(), nil)
+	c := newChain(dbm.NewMemDB(), genesisBaseAccounts(in.BaseAt))
 	h := runHistory(c, in)
 	obs := genObs{Ops: h.log, Errs: h.errs, ModuleDiff: map[string]string{}, Sizes: map[string]int{}}
 	kb, _ := json.Marshal(in)
@@ -843,21 +859,51 @@ func genesisRunCase(id string, in hInput) []Case {
 	ctx2 := a2.BaseApp.NewContext(true, hdr).WithGasMeter(sdk.NewInfiniteGasMeter())
 	c.App.EvmKeeper.WithChainID(ctx1)
 	a2.EvmKeeper.WithChainID(ctx2)
-	qs := querySet(ctx1, c.App, h)
+	// EVM state per holder: every address with a code hash or storage on either chain (found through the
+	// auth accounts' concrete types and the raw storage prefix of the EVM store, not through the export)
+	holders1, holders2 := evmHolders(c.App, ctx1), evmHolders(a2, ctx2)
+	var evmGS evmtypes.GenesisState
+	if err := cdc.UnmarshalJSON(gs1[evmtypes.ModuleName], &evmGS); err != nil {
+		msgs = append(msgs, "the exported evm section cannot be decoded: "+err.Error())
+	} else {
+		dm := evmDocCheck(&evmGS, holders1)
+		if len(dm) > 0 {
+			obs.ModuleDiff["evm(document vs chain)"] = strings.Join(dm, " | ")
+		}
+		if len(dm) > 4 {
+			dm = append(dm[:4], fmt.Sprintf("(and %d more)", len(dm)-4))
+		}
+		msgs = append(msgs, dm...)
+	}
+	qs := []qReq{}
+	qseen := map[string]bool{}
+	for _, q := range append(holderQueries(c, holders1, holders2), querySet(ctx1, c.App, h)...) {
+		if !qseen[q.Name] {
+			qseen[q.Name] = true
+			qs = append(qs, q)
+		}
+	}
 	obs.NQueries = len(qs)
 	for _, q := range qs {
 		r1 := runQuery(c.App, ctx1, q)
 		r2 := runQuery(a2, ctx2, q)
 		if r1 != r2 {
 			obs.QueryDiff = append(obs.QueryDiff, q.Name)
-			if len(obs.QueryDiff) <= 4 {
-				msgs = append(msgs, fmt.Sprintf("query %s answers differently after re-import (%s vs %s)", q.Name, trunc(r1, 80), trunc(r2, 80)))
+			if len(obs.QueryDiff) <= 6 {
+				who := ""
+				if strings.HasPrefix(q.Name, "evm/") {
+					parts := strings.Split(q.Name, "/")
+					if len(parts) >= 3 {
+						if hd, ok := holders1[common.HexToAddress(parts[2])]; ok {
+							who = " [" + hd.describe() + " on the exporting chain]"
+						}
+					}
+				}
+				msgs = append(msgs, fmt.Sprintf("query %s answers differently after re-import (%s vs %s)%s", q.Name, showAnswer(q, r1), showAnswer(q, r2), who))
 			}
 		}
 	}
 	// sizes (distribution / non-triviality)
-	var evmGS evmtypes.GenesisState
-	_ = cdc.UnmarshalJSON(gs1[evmtypes.ModuleName], &evmGS)
 	nCode, nStor := 0, 0
 	for _, acc := range evmGS.Accounts {
 		if acc.Code != "" {
@@ -866,6 +912,15 @@ func genesisRunCase(id string, in hInput) []Case {
 		nStor += len(acc.Storage)
 	}
 	obs.Sizes["evm_accounts"], obs.Sizes["evm_with_code"], obs.Sizes["evm_storage"] = len(evmGS.Accounts), nCode, nStor
+	for _, hd := range holders1 {
+		obs.Sizes["evm_state_on_"+hd.Kind+"_account"]++
+		if len(hd.Code) > 0 && len(hd.Slots) == 0 {
+			obs.Sizes["evm_code_without_storage"]++
+		}
+		if len(hd.Code) > 0 && len(hd.Slots) > 0 && hd.Kind == "clawback" {
+			obs.Sizes["evm_code_and_storage_on_clawback_account"]++
+		}
+	}
 	obs.Sizes["token_pairs"] = len(c.App.Erc20Keeper.GetTokenPairs(ctx1))
 	obs.Sizes["liquid_denoms"] = len(c.App.LiquidVestingKeeper.GetAllDenoms(ctx1))
 	obs.Sizes["dao_holders"] = len(c.App.DaoKeeper.GetAccountsBalances(ctx1))
@@ -1091,7 +1146,11 @@ func genesisDriver(cfg Config, out *Out) error {
 		if cfg.Tier == "thorough" {
 			nb, per = 3+cr.Intn(10), 6
 		}
-		emit(genesisRunCase(fmt.Sprintf("s%d-%d", cfg.Seed, i), genHistory(cr, nb, per)))
+		in := genHistory(cr, nb, per)
+		if ns := cr.Intn(4); ns > 0 { // 3 of 4 histories: 1-3 scenarios putting EVM state on an account of a chosen type
+			in = injectEvmScenarios(cr, in, ns)
+		}
+		emit(genesisRunCase(fmt.Sprintf("s%d-%d", cfg.Seed, i), in))
 	}
 	return nil
 }
